@@ -29,6 +29,7 @@ type cfgStep struct {
 	// dirs, 2 superseded options first (the last occurrence of an option wins)
 	order      int
 	shadowDirs []string
+	shortage   bool // observed: a window of descriptor exhaustion was open at some point of the call
 }
 
 func (s cfgStep) String() string {
@@ -168,8 +169,26 @@ func c20(r *core.Run) {
 		}
 	}
 	firstTouch := 0
+	// further package-level Configure calls BEFORE the default cache is first
+	// used (GetDefaultCache, a query): each must take effect like any other
+	var preUse []cfgStep
 	if useDefault {
 		firstTouch = src.Intn(3)
+		if firstTouch == 0 {
+			for i, n := 0, src.Intn(3); i < n; i++ {
+				var s cfgStep
+				switch src.Intn(3) {
+				case 0:
+					s.setDirs, s.dirs = true, drawDirs()
+				case 1:
+					s.setAuto, s.auto = true, src.Bool(1, 2)
+				default:
+					s.setDirs, s.dirs = true, drawDirs()
+					s.setAuto, s.auto = true, src.Bool(1, 2)
+				}
+				preUse = append(preUse, s)
+			}
+		}
 	}
 	e.do("create", func() {
 		if !useDefault {
@@ -180,6 +199,9 @@ func c20(r *core.Run) {
 		switch firstTouch {
 		case 0: // first touched by Configure with options: they take effect
 			_ = cdi.Configure(initial.options()...)
+			for _, s := range preUse {
+				_ = cdi.Configure(s.options()...)
+			}
 		case 1: // first touched by GetDefaultCache: default options
 			_ = cdi.GetDefaultCache()
 			initial = cfgStep{}
@@ -194,6 +216,10 @@ func c20(r *core.Run) {
 		initial = cfgStep{}
 	}
 	apply(initial)
+	for _, s := range preUse {
+		apply(s)
+		r.Notef("before the first use of the default cache: %s", s)
+	}
 	r.Notef("initial cache: default=%v %s -> dirs %v auto %v", useDefault, initial, curDirs, curAuto)
 
 	// ---- histories ----
@@ -240,6 +266,16 @@ func c20(r *core.Run) {
 	src.End()
 	looseWindow := src.Bool(1, 3)
 	r.Knob("loose_emfile_window", looseWindow)
+	// the squeezer's windows: {idle steps before, idle steps inside}
+	nsq := 0
+	var squeeze [][2]int
+	if src.Bool(1, 4) {
+		nsq = 1 + src.Intn(2)
+		for i := 0; i < nsq; i++ {
+			squeeze = append(squeeze, [2]int{src.Intn(12), 1 + src.Intn(8)})
+		}
+		r.Knob("squeezer_windows", fmt.Sprint(squeeze))
+	}
 	// descriptor exhaustion: inside a window another part of the process holds every free descriptor
 	var hog []int
 	inWindow := false
@@ -257,31 +293,69 @@ func c20(r *core.Run) {
 			refill()
 		}
 	}
+	// windows may overlap (the reconfigurer's own and the squeezer's)
+	winDepth, winEpoch := 0, 0
+	openWindow := func() {
+		winDepth++
+		winEpoch++
+		e.app.NoFile = e.app.NumFDs()
+		inWindow = true
+	}
+	closeWindow := func() {
+		winDepth--
+		if winDepth > 0 {
+			return
+		}
+		inWindow = false
+		for _, fd := range hog {
+			e.app.Close(fd)
+		}
+		hog = nil
+		e.app.NoFile = 1024
+	}
 	reconf := e.w.Spawn(e.app, "reconfigurer", func() {
-		for _, s := range steps {
+		for i := range steps {
+			s := &steps[i]
 			if s.emfile {
 				e.w.Yield(&sched.Op{Kind: "window-open", Path: ""})
-				e.app.NoFile = e.app.NumFDs()
-				inWindow = true
+				openWindow()
 				e.w.Probe("emfile_window")
 			}
+			ep := winEpoch
+			s.shortage = inWindow
 			if useDefault {
 				_ = cdi.Configure(s.options()...)
 			} else {
 				_ = e.cache.Configure(s.options()...)
 			}
+			s.shortage = s.shortage || inWindow || winEpoch != ep
 			if s.emfile {
 				e.w.Yield(&sched.Op{Kind: "window-close", Path: ""})
-				inWindow = false
-				for _, fd := range hog {
-					e.app.Close(fd)
-				}
-				hog = nil
-				e.app.NoFile = 1024
+				closeWindow()
 			}
 		}
 	})
 	tasks := []*sched.Task{reconf}
+	// descriptor exhaustion "at any step": a shortage that begins and ends
+	// at arbitrary system calls of whatever the cache is doing (in the middle
+	// of a directory scan, between the listing and the reading of a file)
+	if nsq > 0 {
+		tasks = append(tasks, e.w.Spawn(e.app, "squeezer", func() {
+			for _, w := range squeeze {
+				for i := 0; i < w[0]; i++ {
+					e.w.Yield(&sched.Op{Kind: "idle", Path: ""})
+				}
+				e.w.Yield(&sched.Op{Kind: "window-open", Path: ""})
+				openWindow()
+				e.w.Probe("emfile_window_mid_operation")
+				for i := 0; i < w[1]; i++ {
+					e.w.Yield(&sched.Op{Kind: "idle", Path: ""})
+				}
+				e.w.Yield(&sched.Op{Kind: "window-close", Path: ""})
+				closeWindow()
+			}
+		}))
+	}
 	tasks = append(tasks, e.w.Spawn(c.mut, "mutator", func() {
 		for _, op := range prog {
 			op.run()
@@ -322,7 +396,7 @@ func c20(r *core.Run) {
 	lastInWindow := false
 	for i := len(steps) - 1; i >= 0; i-- {
 		if steps[i].setDirs || steps[i].setAuto {
-			lastInWindow = steps[i].emfile
+			lastInWindow = steps[i].shortage
 			break
 		}
 	}
